@@ -5,7 +5,7 @@ import z3
 
 from vfkit import bounded, core, model
 from vfkit.check import Plan
-from vfkit.sym import S
+from vfkit.sym import S, EngineUnsupported
 
 from . import c01, lexing, parsing
 
@@ -105,7 +105,7 @@ def plan(tier, seed):
     want = {"C03"}
     pl.cases = c01.production_cases(want) + [c for c in lexing.lexer_cases(want) if "/t_TERM/" in c.key]
     pl.canaries = [canary()]
-    pl.finite = [("C03-T/table-equality", table_equality), ("C03-T/conflict-audit", conflict_audit),
+    pl.finite = [("C03-K/token-languages", token_languages), ("C03-T/table-equality", table_equality), ("C03-T/conflict-audit", conflict_audit),
                  ("C03-T/reserved-words", precedence_facts), ("C03-T/left-assoc", parsing.left_assoc_table)]
     n = 5 if tier == "quick" else 7
 
@@ -128,3 +128,40 @@ def plan(tier, seed):
     pl.claim = ("shape, flattening, reserved words and layout independence of each action / lexer rule are proved; precedence "
                 "end to end is decided by a bounded differential check, hence level exploration.")
     return pl
+
+
+def token_languages():
+    """F / exact (regular-language equivalence by derivatives, all strings): the lexer rules for phrases, regexes and the one-character
+    tokens accept exactly the documented languages, and the reserved words are exactly AND OR NOT TO in upper case.
+    Documented: a phrase is a double quote, any run of characters other than a double quote and a backslash or of backslash-escaped
+    characters, a double quote; a regex the same between slashes; modifiers are ~ and ^ followed by an optional numeral."""
+    import re as _re
+    from vfkit import ext
+    from vfkit import relang as RL
+    fails = []
+    n = 0
+    spec = {
+        "t_PHRASE": r'"(?:[^\\"]|\\.)*"', "t_REGEX": r'/(?:[^\\/]|\\.)*/',
+        "t_APPROX": r'~[0-9.]*', "t_BOOST": r'\^[0-9.]*', "t_COLUMN": r':', "t_PLUS": r'\+', "t_MINUS": r'-', "t_LPAREN": r'\(', "t_RPAREN": r'\)',
+        "t_LBRACKET": r'[\[{]', "t_RBRACKET": r'[\]}]', "t_LESSTHAN": r'<=?', "t_GREATERTHAN": r'>=?',
+    }
+    for name, want in spec.items():
+        n += 1
+        fn = getattr(P, name, None)
+        rx = getattr(fn, "regex", None) or getattr(fn, "__doc__", None) if fn is not None else None
+        if not isinstance(rx, str):
+            fails.append({"id": name, "why": "lexer rule %s not found" % name, "native_confirmed": False})
+            continue
+        try:
+            got = ext.full_language_rx(rx, _re.VERBOSE)
+        except EngineUnsupported as e:
+            raise EngineUnsupported("token language of %s: %s" % (name, e))
+        exp = ext.full_language_rx(want, 0)
+        if not (RL.included(got, exp) and RL.included(exp, got)):
+            w = RL.witness_nonempty(RL.conj(got, RL.neg(exp))) or RL.witness_nonempty(RL.conj(exp, RL.neg(got)))
+            fails.append({"id": name, "why": "the rule %s accepts a different language than documented" % name, "example": w, "native_confirmed": False})
+    n += 1
+    if dict(P.reserved) != {"AND": "AND_OP", "OR": "OR_OP", "NOT": "NOT", "TO": "TO"}:
+        fails.append({"id": "reserved", "why": "reserved words are %r" % (dict(P.reserved),), "native_confirmed": False})
+    return {"ok": not fails, "checked": n, "failures": fails, "exhaustive": True, "samples": [{"t_PHRASE": spec["t_PHRASE"]}],
+            "detail": "regular-language equivalence (both inclusions, exact) of 13 token rules with their documented languages; reserved-word table"}
